@@ -258,15 +258,6 @@ def run_one(mod, case):
     return out
 
 
-def _worker_init(verif):
-    if verif not in sys.path:
-        sys.path.insert(0, verif)
-    from . import boot, state
-    boot.boot()
-    state.snapshot()
-    _pin()
-
-
 _PINNED = False
 
 
@@ -356,44 +347,153 @@ def _batch_child(args, emit):
             break
 
 
-def _chunk(args):
-    prop_id, tier, seed, runs, deadline, scratch = args
-    _pin()
-    mod = _load_prop(prop_id)
-    if getattr(mod, 'BATCH', False) and not os.environ.get('VERIF_NOBATCH'):
-        from . import state
-        res = []
-        todo = list(runs)
-        while todo and time.time() <= deadline:
-            items, status = spawn_stream(_batch_child, (prop_id, tier, seed, todo, deadline, scratch),
-                                         item_timeout=RUN_TIMEOUT)
-            res.extend(x for x in items if 'run' in x)
-            done = {x['run'] for x in items if 'run' in x}
-            todo = [x for x in todo if x not in done]
-            if status == 'ok':
-                if todo and items and items[-1].get('poisoned'):
-                    continue    # fresh batch child for the rest
-                break           # finished, or stopped by the deadline
-            if not todo:
-                break
-            # the batch child hung or died inside the next run: record it, go on after it
-            res.append({'run': todo[0], 'harness': 'hang' if status == 'timeout' else 'batch-' + status,
-                        'tb': (items[-1].get('tb', '') if items and items[-1].get('harness') else '')})
-            todo = todo[1:]
-        return res
-    res = []
-    for run in runs:
-        if time.time() > deadline:
-            break
+def worker_main(argv):
+    """Entry of a chunk worker: a *fresh interpreter* per chunk (``check.py --worker ...``).
+
+    Fresh interpreters (instead of a long-lived pool) give every chunk the same process history,
+    hence the same allocation addresses with address-space randomisation off, and avoid sharing one
+    booted parent's anon_vma root lock among all workers. Results are streamed as length-prefixed
+    pickles on the file descriptor given in argv."""
+    import struct
+    spec = json.loads(argv[0])
+    fd = spec['fd']
+    cpu = spec.get('cpu')
+    if cpu is not None and not os.environ.get('VERIF_NOPIN'):
         try:
-            case = _gen_case(mod, prop_id, seed, run, tier, scratch)
+            os.sched_setaffinity(0, {cpu})
         except Exception:
-            res.append({'run': run, 'harness': 'generate', 'tb': traceback.format_exc()[-2000:]})
-            continue
-        t0 = time.time()
-        out = run_one(mod, case)
-        res.append(_finish(out, case, run, t0, len(res), scratch))
-    return res
+            pass
+    try:
+        import threading
+        threading.stack_size(512 * 1024)
+    except Exception:
+        pass
+    if not os.environ.get('VERIF_DEBUG'):
+        dn = os.open(os.devnull, os.O_WRONLY)
+        os.dup2(dn, 1)
+        os.dup2(dn, 2)
+    from . import boot, state
+    boot.boot()
+    state.snapshot()
+
+    def emit(obj):
+        data = pickle.dumps(obj, protocol=4)
+        mv = memoryview(struct.pack('<I', len(data)) + data)
+        while mv:
+            n = os.write(fd, mv)
+            mv = mv[n:]
+    prop_id, tier, seed = spec['prop'], spec['tier'], spec['seed']
+    runs, deadline, scratch = spec['runs'], spec['deadline'], spec.get('scratch')
+    mod = _load_prop(prop_id)
+    try:
+        if getattr(mod, 'BATCH', False) and not os.environ.get('VERIF_NOBATCH'):
+            _batch_child((prop_id, tier, seed, runs, deadline, scratch), emit)
+        else:
+            for n, run in enumerate(runs):
+                if time.time() > deadline:
+                    break
+                try:
+                    case = _gen_case(mod, prop_id, seed, run, tier, scratch)
+                except Exception:
+                    emit({'run': run, 'harness': 'generate', 'tb': traceback.format_exc()[-2000:]})
+                    continue
+                t0 = time.time()
+                out = run_one(mod, case)
+                emit(_finish(out, case, run, t0, n, scratch))
+        emit({'__end__': True})
+    except BaseException as e:       # noqa
+        emit({'__end__': True, 'harness': 'exception', 'exc': repr(e)[:500], 'tb': traceback.format_exc()[-3000:]})
+    os._exit(0)
+
+
+class _Worker:
+    """Driver-side handle of one chunk worker process."""
+
+    def __init__(self, driver, runs, deadline, scratch, cpu, tag):
+        import subprocess
+        self.driver = driver
+        self.todo = list(runs)
+        self.deadline = deadline
+        self.scratch = scratch
+        self.cpu = cpu
+        self.tag = tag
+        self.results = []
+        self.proc = None
+        self.finished = False
+        self._start()
+
+    def _start(self):
+        import subprocess
+        r, w = os.pipe()
+        spec = {'fd': w, 'cpu': self.cpu, 'prop': self.driver.prop_id, 'tier': self.driver.tier,
+                'seed': self.driver.seed, 'runs': self.todo, 'deadline': self.deadline, 'scratch': self.scratch}
+        self.proc = subprocess.Popen([sys.executable, '-B', os.path.join(VERIF, 'check.py'), '--worker', json.dumps(spec)],
+                                     pass_fds=(w,), close_fds=True, cwd=VERIF)
+        os.close(w)
+        self.r = r
+        self.buf = b''
+        self.last = time.monotonic()
+        self.booted = False
+
+    def fileno(self):
+        return self.r
+
+    def on_readable(self):
+        import struct
+        b = os.read(self.r, 1 << 16)
+        if not b:
+            self._ended('died')
+            return
+        self.buf += b
+        while len(self.buf) >= 4:
+            n = struct.unpack('<I', self.buf[:4])[0]
+            if len(self.buf) < 4 + n:
+                break
+            obj = pickle.loads(self.buf[4:4 + n])
+            self.buf = self.buf[4 + n:]
+            self.last = time.monotonic()
+            if isinstance(obj, dict) and obj.get('__end__'):
+                if obj.get('harness') and self.todo:
+                    self.results.append({'run': self.todo[0], 'harness': 'worker-exception', 'tb': obj.get('tb', '')})
+                    self.todo = self.todo[1:]
+                    self._ended('exception')
+                else:
+                    self._ended('ok')
+                return
+            if 'run' in obj:
+                self.results.append(obj)
+                if obj['run'] in self.todo:
+                    self.todo.remove(obj['run'])
+                if obj.get('poisoned'):
+                    pass
+
+    def check_timeout(self):
+        limit = RUN_TIMEOUT + (30 if not self.results else 0)
+        if not self.finished and time.monotonic() - self.last > limit:
+            self._ended('timeout')
+
+    def _ended(self, status):
+        try:
+            os.close(self.r)
+        except OSError:
+            pass
+        if status in ('timeout', 'died', 'exception'):
+            try:
+                self.proc.kill()
+            except Exception:
+                pass
+        try:
+            self.proc.wait(timeout=10)
+        except Exception:
+            pass
+        if status in ('timeout', 'died') and self.todo:
+            self.results.append({'run': self.todo[0], 'harness': 'hang' if status == 'timeout' else 'worker-died'})
+            self.todo = self.todo[1:]
+        poisoned = bool(self.results and self.results[-1].get('poisoned'))
+        if self.todo and time.time() < self.deadline and (status != 'ok' or poisoned):
+            self._start()       # go on after the run that hung / died / poisoned the process
+            return
+        self.finished = True
 
 
 # ----------------------------------------------------------------- driver side
@@ -422,32 +522,48 @@ class Driver:
         chunk = max(cfg.get('chunk', 20), -(-total // (self.jobs * cfg.get('chunks_per_job', 2))))
         deadline = time.time() + wall
         need_scratch = getattr(mod, 'NEEDS_SCRATCH', False)
-        results = []
-        # Workers are *fresh interpreters* (spawn), each booting beartype itself: processes forked
-        # from one booted parent share that parent's anon_vma root lock in the kernel, and every
-        # copy-on-write fault and exit of every descendant then serialises on it.
-        ctx = mp.get_context('spawn')
         runs = list(range(total))
         chunks = [runs[i:i + chunk] for i in range(0, len(runs), chunk)]
-        # determinism spot-check: first few runs are executed twice
+        # determinism spot-check: the first few runs are executed twice, in another process
         ndet = min(cfg.get('det_runs', 6), total)
-        det_chunk = list(range(ndet))
-        with cf.ProcessPoolExecutor(max_workers=self.jobs, mp_context=ctx, initializer=_worker_init,
-                                    initargs=(VERIF,)) as ex:
-            futs = [ex.submit(_chunk, (self.prop_id, self.tier, self.seed, c, deadline,
-                                       self.scratch if need_scratch else None)) for c in chunks]
-            det_fut = ex.submit(_chunk, (self.prop_id, self.tier, self.seed, det_chunk,
-                                         deadline + 120,
-                                         (self.scratch + '/det') if need_scratch else None))
-            for f in futs:
-                try:
-                    results.extend(f.result())
-                except Exception:
-                    results.append({'run': -1, 'harness': 'worker', 'tb': traceback.format_exc()[-2000:]})
-            try:
-                det = det_fut.result()
-            except Exception:
-                det = []
+        pending = [('main%d' % i, c, deadline, self.scratch if need_scratch else None) for i, c in enumerate(chunks)]
+        pending.insert(min(1, len(pending)), ('det', list(range(ndet)), deadline + 120,
+                                              (self.scratch + '/det') if need_scratch else None))
+        try:
+            cpus = sorted(os.sched_getaffinity(0))
+        except Exception:
+            cpus = list(range(self.jobs))
+        active = {}
+        free_cpus = list(cpus[:self.jobs]) if len(cpus) >= self.jobs else [None] * self.jobs
+        finished = []
+        while pending or active:
+            while pending and free_cpus:
+                tag, c, dl, sc = pending.pop(0)
+                cpu = free_cpus.pop(0)
+                w = _Worker(self, c, dl, sc, cpu, tag)
+                active[w] = cpu
+            rl, _, _ = select.select(list(active), [], [], 1.0)
+            for w in rl:
+                if not w.finished:
+                    try:
+                        w.on_readable()
+                    except Exception:
+                        w.results.append({'run': (w.todo or [-1])[0], 'harness': 'driver-read',
+                                          'tb': traceback.format_exc()[-1500:]})
+                        w._ended('died')
+            for w in list(active):
+                if not w.finished:
+                    w.check_timeout()
+                if w.finished:
+                    free_cpus.append(active.pop(w))
+                    finished.append(w)
+        results = []
+        det = []
+        for w in finished:
+            if w.tag == 'det':
+                det = w.results
+            else:
+                results.extend(w.results)
         self.results = results
         self.det = det
         self.planned = total
@@ -548,6 +664,11 @@ class Driver:
             else:
                 unknown.append(r)
         # distinct unknown violations by key, minimise up to 3
+        if os.environ.get('VERIF_DUMP'):
+            with open(os.environ['VERIF_DUMP'], 'w') as f:
+                json.dump([{'run': r['run'], 'digest': r.get('digest'), 'v': (r.get('violation') or {}).get('kind'),
+                            'key': (r.get('violation') or {}).get('key'), 'detail': (r.get('violation') or {}).get('detail', '')[:600],
+                            'h': r.get('harness')} for r in sorted(results, key=lambda x: x['run'])], f, indent=0)
         reported = []
         unrepro = 0
         groups = {}
@@ -664,7 +785,8 @@ class Driver:
             'inconclusive_runs': incon,
             'harness_errors': len(harness),
             'harness_error_kinds': _count(h.get('harness') for h in harness),
-            'determinism_recheck': {'runs_compared': n_det, 'mismatches': len(bad_det)},
+            'determinism_recheck': {'runs_compared': n_det, 'mismatches': len(bad_det),
+                                    'aslr_off': os.environ.get('VERIF_NOASLR') == '1'},
             'unreproducible_violations': unrepro,
             'components': getattr(mod, 'COMPONENTS', {}),
             'known_findings_hit': {k: len(v) for k, v in known_hits.items()},
